@@ -21,7 +21,8 @@ LEVEL = "exploration"
 EX = "dclab.rtdc_dataset.export:Export.hdf5"
 ALLF = ["deform", "area_um", "fl1_max", "frame", "image", "image_bg", "mask",
         "contour", "trace", gen.USER_FEAT]
-KINDS = ["dict", "hdf5", "child-dict", "child-hdf5", "basin"]
+KINDS = ["dict", "hdf5", "child-dict", "child-hdf5", "basin",
+         "grandchild-hdf5"]
 
 
 def masks_for(n, quick):
@@ -47,7 +48,8 @@ class Source:
         self.kind = kind
         self.files = []
         self.keep = []
-        ev = gen.make_events(n + 2 if kind.startswith("child") else n,
+        ev = gen.make_events(n + 2 if kind.startswith("child") else
+                             n + 3 if kind.startswith("grandchild") else n,
                              seed=seed)
         self.logs = {"vf-log": ["first line", "second µ line"],
                      # more UTF-8 bytes than characters, > 100 bytes
@@ -56,7 +58,7 @@ class Source:
         self.tables = {"vf-tab": np.rec.fromarrays(
             [np.arange(3.0), np.arange(3.0) ** 2], names=["a", "b"])}
         base = scratch / f"c02_{tag}_{os.getpid()}"
-        if kind in ("hdf5", "child-hdf5", "basin"):
+        if kind in ("hdf5", "child-hdf5", "basin", "grandchild-hdf5"):
             p = base.with_suffix(".src.rtdc")
             gen.write_rtdc(p, ev, logs=self.logs, tables=self.tables)
             self.files.append(p)
@@ -79,6 +81,20 @@ class Source:
             self.keep.append(parent)
             ds = dclab.new_dataset(parent)
             self.idx = np.array([i for i in range(n + 2) if i not in (1, n)])
+        elif kind == "grandchild-hdf5":
+            # root (n+3 events) hides 1 and n; the child hides its event 2;
+            # the exported dataset is the child of that child
+            root = dclab.new_dataset(self.files[0])
+            root.filter.manual[[1, n]] = False
+            root.apply_filter()
+            child = dclab.new_dataset(root)
+            child.filter.manual[2] = False
+            child.apply_filter()
+            self.keep += [root, child]
+            ds = dclab.new_dataset(child)
+            vis = [i for i in range(n + 3) if i not in (1, n)]
+            del vis[2]
+            self.idx = np.array(vis)
         elif kind == "basin":
             from dclab.rtdc_dataset.writer import RTDCWriter
             p2 = base.with_suffix(".ref.rtdc")
